@@ -13,6 +13,8 @@
 #include "kernel_ipc.h"
 #include <pmem.h>
 #include <pshm.h>
+/* access permission of every open is symbolic: ownership, naming, sizes, lock and clean-up must not depend on it */
+#define ND_PERM() (ND_BOOL() ? P_SHM_ACCESS_READWRITE : P_SHM_ACCESS_READONLY)
 #define SHM_SLOT 2
 #define SEM_SLOT 4
 
@@ -53,7 +55,7 @@ void harness(void) {
   /* ---- documented clean-up by a fresh process ---- */
   vk_cur = 0;
   unsigned long s1 = (unsigned long) ND_RANGE(1, VK_SEGMAX), s2 = (unsigned long) ND_RANGE(1, VK_SEGMAX);
-  PShm *s = p_shm_new("a", s1, P_SHM_ACCESS_READWRITE, NULL);
+  PShm *s = p_shm_new("a", s1, ND_PERM(), NULL);
   if (left_shm < 0) {
     VASSERT(s != NULL, "no segment left behind: p_shm_new creates one, whatever lock semaphore is lying around");
     VASSUME(s != NULL);
@@ -65,7 +67,7 @@ void harness(void) {
   }
   if (s != NULL) { p_shm_take_ownership(s); p_shm_free(s); }
   if (s != NULL) VASSERT(vk_shm_linked(SHM_SLOT) < 0 && vk_sem_linked(SEM_SLOT) < 0, "owner free removed segment and lock semaphore from the system");
-  PShm *c = p_shm_new("a", s2, P_SHM_ACCESS_READWRITE, NULL);
+  PShm *c = p_shm_new("a", s2, ND_PERM(), NULL);
   VASSERT(c != NULL, "clean-up then create again succeeds from every leftover state");
   VASSUME(c != NULL);
   check_fresh(c, s2, left_shm, left_sem, 0);
@@ -77,7 +79,7 @@ void harness(void) {
   if (ND_BOOL()) {
     /* a second process opens the segment and tries to lock: it must block (path ends in the model) */
     vk_cur = 1;
-    PShm *q = p_shm_new("a", s2, P_SHM_ACCESS_READWRITE, NULL);
+    PShm *q = p_shm_new("a", s2, ND_PERM(), NULL);
     VASSERT(q != NULL && p_shm_get_address(q) == p_shm_get_address(c), "second process attaches to the same segment");
     VASSUME(q != NULL);
     (void) p_shm_lock(q, NULL);
